@@ -39,6 +39,10 @@ func Roles() Spec {
 			return Msg(lbl("CreateClass", s), &basetypes.MsgCreateClass{Admin: s.String(), Issuers: []string{s.String()}, Metadata: "m", CreditTypeAbbrev: "C", Fee: pcoin("uregen", 20)})
 		},
 		func(s sdk.AccAddress) *explore.Action {
+			// a second credit type (exists only after AddCreditType(BIO) by the authority)
+			return Msg(lbl("CreateClass(BIO)", s), &basetypes.MsgCreateClass{Admin: s.String(), Issuers: []string{s.String(), B.String()}, Metadata: "m", CreditTypeAbbrev: "BIO", Fee: pcoin("uregen", 20)})
+		},
+		func(s sdk.AccAddress) *explore.Action {
 			return Msg(lbl("CreateProject(C01)", s), &basetypes.MsgCreateProject{Admin: s.String(), ClassId: "C01", Metadata: "m", Jurisdiction: "US-WA"})
 		},
 		func(s sdk.AccAddress) *explore.Action {
